@@ -119,6 +119,10 @@ type FlowOpts struct {
 	StartSucc  int
 	Init       []string // labels in the initial world
 	Sticky     []string // labels that survive loop back edges ("happened at least once" facts)
+	Track      []*ssa.Phi // additional phis whose per-path value is tracked
+	// Probe is called for every world reaching a target; it may resolve values
+	// in that world (tracked phis, spilled locals) and returns extra labels.
+	Probe func(in ssa.Instruction, resolve func(ssa.Value) ssa.Value) []string
 	MaxWorlds  int
 }
 
@@ -279,6 +283,9 @@ func (e *Engine) flowOnce(fn *ssa.Function, o FlowOpts, genBlocks map[string]map
 		}
 	}
 	fi := e.fnInfo(fn)
+	for _, p := range o.Track {
+		fi.tracked[p] = true
+	}
 	type item struct {
 		b     *ssa.BasicBlock
 		start int
@@ -403,6 +410,12 @@ func (e *Engine) flowOnce(fn *ssa.Function, o FlowOpts, genBlocks map[string]map
 					ls := LabelSet{}
 					for l := range w.labels {
 						ls[l] = true
+					}
+					if o.Probe != nil {
+						cw := w
+						for _, l := range o.Probe(in, func(v ssa.Value) ssa.Value { return e.resolveVal(v, cw) }) {
+							ls[l] = true
+						}
 					}
 					lk := ls.String()
 					if !recorded[in][lk] {
